@@ -89,8 +89,8 @@ Example C07_example :
   match model_outcome io_lib [48%positive] with
   | OFlat syms eqs =>
       map (fun s => match s with (n, _, pre, _, _, _) => (n, pre) end) syms =
-        [([44; 42], []); ([44; 40], []); ([44; 41], [pParameter]);
-         ([46; 42], []); ([46; 40], []); ([46; 41], [pParameter]);
+        [([44; 42], []); ([44; 40], []); ([44; 41], [pParam]);
+         ([46; 42], []); ([46; 40], []); ([46; 41], [pParam]);
          ([45], [pInput]); ([47], [pOutput])]%positive
       /\ length eqs = 5%nat
   | OErr _ => False
